@@ -123,20 +123,20 @@ theorem writer_step_abs (s : WStep) (m : Threads.Msg) (hw : s.wellFormed = true)
 /-- a concrete poller run: one trip (no reply from chrony, within grace; time-out at the mailbox), then a reply
     whose send fails: the hypotheses of `poller_exit_eq` are satisfiable, and it panics -/
 def demoPollerInputs : List Value :=
-  pollerStartInputs .unit .unit ++ (PIter.mk (.noReply .unit true) .timeout).inputs ++
-    (PEnd.sendFailed (.noReply .unit false)).inputs
+  pollerStartInputs .unit .unit ++ (PIter.mk (.noReply ⟨0, 0⟩ true) .timeout).inputs ++
+    (PEnd.sendFailed (.noReply ⟨0, 0⟩ false)).inputs
 
 example : runFuel 201 (pollerCtx 0 (fun i => demoPollerInputs.getD i .unit)) "chrony_poller::run"
       .unit [contextValue .poller [.main, .poller, .writer], phcValue none] = .panic := by
-  refine poller_exit_eq [.main, .poller, .writer] none 1 0 (fun _ => ⟨.noReply .unit true, .timeout⟩)
-    (fun _ _ => rfl) (fun _ _ => trivial) (.sendFailed (.noReply .unit false)) trivial ?_ 0 _ .unit .unit ?_
+  refine poller_exit_eq [.main, .poller, .writer] none 1 0 (fun _ => ⟨.noReply ⟨0, 0⟩ true, .timeout⟩)
+    (fun _ _ => rfl) (fun _ _ => trivial) (.sendFailed (.noReply ⟨0, 0⟩ false)) trivial ?_ 0 _ .unit .unit ?_
   · intro p hp
     cases hp
     rfl
   · simp [inputsAt, demoPollerInputs, pollerStartInputs, loopInputs, PIter.inputs, PEnd.inputs, Poll.inputs,
       RecvT.value, List.range_succ]
 
-example : ThreadsProg.pollerNexts .start (ThreadsProg.pollerProg [⟨true, none⟩] (PEnd.sendFailed (.noReply .unit false)).abs)
+example : ThreadsProg.pollerNexts .start (ThreadsProg.pollerProg [⟨true, none⟩] (PEnd.sendFailed (.noReply ⟨0, 0⟩ false)).abs)
     = some (.exiting .panic) := by decide
 
 example : ThreadsProg.writerNexts .start (ThreadsProg.writerProg [.data] .abort) = some (.exiting .terminate) := by
